@@ -14,6 +14,22 @@ warn_on_retrace_num = int(os.environ.get("EINX_WARN_ON_RETRACE", 0))
 max_cache_size = int(os.environ.get("EINX_CACHE_SIZE", -1))
 
 
+class _Scalar:
+    """Cache key of a scalar argument. In Python ``2 == 2.0 == True == np.int64(2)`` and their hashes agree, but they are
+    different arguments of an einx operation, so the key keeps the type."""
+
+    __slots__ = ("value",)
+
+    def __init__(self, value):
+        self.value = value
+
+    def __eq__(self, other):
+        return isinstance(other, _Scalar) and type(self.value) is type(other.value) and self.value == other.value
+
+    def __hash__(self):
+        return hash((type(self.value), self.value))
+
+
 def _freeze_value(x):
     if isinstance(x, np.ndarray):
         return _freeze_value(x.tolist())
@@ -25,8 +41,32 @@ def _freeze_value(x):
         return _freeze_value(vars(x))
     elif isinstance(x, inspect.Parameter):
         return _freeze_value((x.name, x.default, x.annotation, x.kind))
+    elif isinstance(x, bool | int | float | complex | np.generic):
+        return _Scalar(x)
     else:
         return x
+
+
+def _unfreeze_scalars(x):
+    if isinstance(x, _Scalar):
+        return x.value
+    elif isinstance(x, tuple):
+        return tuple(_unfreeze_scalars(x) for x in x)
+    elif isinstance(x, frozendict.frozendict):
+        return frozendict.frozendict({k: _unfreeze_scalars(v) for k, v in x.items()})
+    else:
+        return x
+
+
+def _unfreeze_scalar_args(func):
+    # The cache is keyed on typed scalars, the cached function receives the plain values
+    @functools.wraps(func)
+    def func_unfrozen(*args, **kwargs):
+        args = [_unfreeze_scalars(a) for a in args]
+        kwargs = {k: _unfreeze_scalars(v) for k, v in kwargs.items()}
+        return func(*args, **kwargs)
+
+    return func_unfrozen
 
 
 def _freeze_args(func):
@@ -97,6 +137,7 @@ def _with_retrace_warning(func):
 # 2. warns if there are more than EINX_WARN_ON_RETRACE cache failures from the same call site
 def lru_cache(func):
     func = _with_retrace_warning(func)
+    func = _unfreeze_scalar_args(func)
 
     if max_cache_size > 0:
         func = functools.lru_cache(maxsize=max_cache_size if max_cache_size > 0 else None)(func)
